@@ -347,7 +347,7 @@ def recompute_ends(d):
     d["qry"][1] = max(d["qry"][1], d["qry"][4])
 
 
-def shrink_chains(chains_d):
+def shrink_chains(chains_d, allow_zero=True):
     """smaller well-formed variants of a list of chain dicts"""
     import copy as _c
     n = len(chains_d)
@@ -366,7 +366,7 @@ def shrink_chains(chains_d):
             for f in (0, 1, 2):
                 v = chains_d[i]["blocks"][j][f]
                 for nv in ([0, v // 2] if f else [1, v // 2]):
-                    if nv < v and (f or nv >= 0):
+                    if nv < v and (f or nv >= (0 if allow_zero else 1)):
                         cs = _c.deepcopy(chains_d)
                         cs[i]["blocks"][j][f] = nv
                         recompute_ends(cs[i])
